@@ -432,12 +432,83 @@ def split_or_guard_arms(ft, ads):
         ads.append({"rule": "D12", "what": f"{n} match arm(s) with or-pattern and guard split into one arm per alternative"})
 
 
+def fresh_search_stub(ft, ads, counter=[0]):
+    """D13: the infinite-iterator expression
+         Variable::sequence(&V).find(|C| { !A1.contains(C) && ... && *C != W1 ... }).unwrap()
+    (Iterator::find over (1..).map(..): outside Verus' subset) is replaced by a call to a generated stub whose
+    ASSUMED contract is read off the expression itself: the result has V's sort and satisfies every conjunct of the
+    predicate.  What is assumed is only that `sequence` yields infinitely many distinct names of V's sort and that
+    `find` returns an element satisfying the predicate; which sets are avoided is taken from the real code."""
+    sig = ft.sig
+    stubs = []
+    k = 0
+    while k + 8 < len(sig):
+        if [t.text for t in sig[k:k + 6]] == ["Variable", ":", ":", "sequence", "(", "&"] and sig[k + 7].text == ")":
+            v = sig[k + 6].text
+            j = k + 8
+            if not ([t.text for t in sig[j:j + 4]] == [".", "find", "(", "|"] and sig[j + 5].text == "|"):
+                raise ExtractError("unsupported", f"{ft.where}: Variable::sequence(..) not followed by .find(|c| ..)")
+            c = sig[j + 4].text
+            find_open = j + 2
+            find_close = match_close(sig, find_open)
+            if [t.text for t in sig[find_close + 1:find_close + 5]] != [".", "unwrap", "(", ")"]:
+                raise ExtractError("unsupported", f"{ft.where}: .find(..) not followed by .unwrap()")
+            b0, b1 = j + 6, find_close
+            if sig[b0].text == "{" and match_close(sig, b0) == b1 - 1:
+                b0, b1 = b0 + 1, b1 - 1
+            conj = []
+            cur = []
+            x = b0
+            while x < b1:
+                if sig[x].text == "&" and sig[x + 1].text == "&" and sig[x + 1].s == sig[x].e:
+                    conj.append(cur)
+                    cur = []
+                    x += 2
+                    continue
+                cur.append(sig[x].text)
+                x += 1
+            conj.append(cur)
+            sets, neqs = [], []
+            for cj in conj:
+                if len(cj) == 7 and cj[0] == "!" and cj[2:] == [".", "contains", "(", c, ")"]:
+                    sets.append(cj[1])
+                elif cj == ["*", c, "!", "=", cj[4]] and len(cj) == 5:
+                    neqs.append(cj[4])
+                elif len(cj) == 5 and cj[1:] == ["!", "=", "*", c]:
+                    neqs.append(cj[0])
+                else:
+                    raise ExtractError("unsupported", f"{ft.where}: fresh-name predicate conjunct `{' '.join(cj)}` not of the form !S.contains(c) / *c != w")
+            n = counter[0]
+            counter[0] += 1
+            gens = ", ".join(f"A{i}: VarSeq" for i in range(len(sets)))
+            params = ["prefix: &Variable"] + [f"a{i}: &A{i}" for i in range(len(sets))] + [f"w{i}: &Variable" for i in range(len(neqs))]
+            ens = ["r.sort == prefix.sort"] + [f"!a{i}.vseq().contains(r)" for i in range(len(sets))] + [f"r != *w{i}" for i in range(len(neqs))]
+            stub = (f"// D13 stub generated from the fresh-name search expression of {ft.where}: avoids {sets}, differs from {neqs}\n"
+                    f"#[verifier::external_body]\nfn d13_fresh_{n}{'<' + gens + '>' if gens else ''}({', '.join(params)}) -> (r: Variable)\n"
+                    f"    ensures {', '.join(ens)},\n{{ unimplemented!() }}\n")
+            call = f"Self::d13_fresh_{n}(&{v}" + "".join(f", &{a}" for a in sets) + "".join(f", &{w}" for w in neqs) + ")"
+            ft.edits.append((sig[k].s, sig[find_close + 4].e - sig[k].s, call))
+            stubs.append(stub)
+            ads.append({"rule": "D13", "what": f"fresh-name search over Variable::sequence(&{v}) replaced by a stub with the assumed contract: same sort, not in {sets}, different from {neqs}"})
+            k = find_close + 5
+            continue
+        k += 1
+    if not stubs:
+        raise ExtractError("lost-anchor", f"{ft.where}: .fresh_search but no `Variable::sequence(&v).find(..).unwrap()` expression")
+    ft.apply_edits()
+    ft.relex()
+    return "\n".join(stubs)
+
+
 def adapt_function(text, where, subs, report):
     ft = FnText(text, where)
     ft.relex()
     ads = report["adaptations"]
     normalise_bool_assign(ft, ads)
     split_or_guard_arms(ft, ads)
+    extra_items = ""
+    if any(sd["kw"] == "fresh_search" for sd in subs):
+        extra_items = fresh_search_stub(ft, ads)
 
     # D8: APIT -> named type parameter
     for sd in subs:
@@ -703,7 +774,7 @@ def adapt_function(text, where, subs, report):
     attrs = [sd["args"].strip() for sd in subs if sd["kw"] == "attr"]
     for a in attrs:
         ads.append({"rule": "D3", "what": f"attribute {a}"})
-    return "".join(a + "\n" for a in attrs) + ft.text
+    return "".join(a + "\n" for a in attrs) + ft.text + ("\n" + extra_items if extra_items else "")
 
 
 
